@@ -368,6 +368,22 @@ def _nested_index(events):
             and len(e.target[2][1]) == 2 and all(x[0] != "slice" for x in e.target[2][1]) else e for e in events]
 
 
+def _whole_row_fill(w, fi) -> None:
+    """No cell-by-cell store: if the matrix is built row by row (`row[:] = [f(x, y) for y in data]`) or in one expression
+    (`np.array([[f(a, b) for b in xs] for a in xs])`) which pair lands in which cell is decided by comprehension order and
+    broadcasting - outside the scalar fragment these rules read (exit 2, not a finding)."""
+    from ..ir import subterms
+    for e in w.events:
+        whole = e.kind == "store" and e.target[0] == "idx" and e.target[2][0] == "slice" and e.value is not None and any(
+            t[0] == "listcomp" for t in subterms(e.value))
+        nested = e.value is not None and any(
+            t[0] in ("alloc", "call") and str(t[1]).endswith(("numpy.array", "numpy.asarray", "numpy.array')")) and t[2]
+            and t[2][0][0] == "listcomp" and t[2][0][1][0] == "listcomp" for t in subterms(e.value))
+        if whole or nested:
+            raise AnalysisError(f"{fi.qual}: the distance matrix is filled by whole rows / one nested comprehension "
+                                f"('{e.text()[:60]}'); the builder rules read cell-by-cell stores - outside the analysable fragment")
+
+
 def check_builders(chk, rep, repo):
     # pre_compute_distance
     fi = repo.need_function("opfython.math.general", "pre_compute_distance")
@@ -389,6 +405,8 @@ def check_builders(chk, rep, repo):
           and e.target[1][1][0] == "alloc"]
     ok = False
     detail = "expected distances[i][j] = DISTANCES[distance](data[i], data[j]) for all i, j in range(len(data))"
+    if not st:
+        _whole_row_fill(w, fi)
     if len(st) == 1 and len(st[0].loops) == 2:
         e = st[0]
         li, lj = w.loops[e.loops[0]], w.loops[e.loops[1]]
@@ -436,6 +454,8 @@ def check_builders(chk, rep, repo):
     st = [e for e in _nested_index(w.events) if e.kind == "store" and e.target[0] == "idx" and e.target[1][0] == "idx"
           and e.target[1][1][0] == "alloc"]
     ok = False
+    if not st:
+        _whole_row_fill(w, w.entry)
     if len(st) == 1 and len(st[0].loops) == 2:
         from ..schema import node_loop
         e = st[0]
